@@ -160,6 +160,32 @@ pub fn run(ctx: &mut Ctx) {
         let mut rng = ctx.rng.fork();
         let (a, b) = pair(&mut rng, if i % 3 == 0 { &gen::DOC_DEFAULT } else { &gen::DOC_SMALL });
         check_pair(ctx, &a, &b);
+        if i % 5 == 2 && a.nodes() < 300 {
+            // composite keys: the key of a document is appended to a buffer that already holds
+            // the key of an earlier column, for the JSONB and for the text form of the document
+            let prefix = [0x00u8, 0x3C, 0xFF, 0x01];
+            let mut forms = vec![crate::refcodec::encode(&a)];
+            if a.all_finite() {
+                forms.push(crate::refjson::compact(&a));
+            }
+            for input in forms {
+                let r = guard(|| {
+                    let mut fresh = Vec::new();
+                    jsonb::convert_to_comparable(&input, &mut fresh);
+                    let mut buf = prefix.to_vec();
+                    jsonb::convert_to_comparable(&input, &mut buf);
+                    (fresh, buf)
+                });
+                match r {
+                    Err(p) => ctx.panic_violation("convert_to_comparable", &p, &|| format!("doc={}", a.show())),
+                    Ok((fresh, buf)) => {
+                        if buf.len() < 4 || buf[..4] != prefix || buf[4..] != fresh[..] {
+                            ctx.violation("convert_to_comparable/not-appended", || format!("buffer held {} ; after the call {} ; key into an empty buffer {} ; input {} ; doc={}", crate::tree::hex(&prefix), crate::tree::hex(&buf), crate::tree::hex(&fresh), crate::tree::hex(&input), a.show()));
+                        }
+                    }
+                }
+            }
+        }
         if i % 3 == 1 && a.nodes() < 300 && b.nodes() < 300 {
             // the key of a document given as text, and of documents in a reused buffer
             let args = super::routes::plain_args(&a, &mut rng);
